@@ -29,3 +29,6 @@ pub use compression::{
     Compression, CompressionAlgorithm, CompressionError, CompressionLevelOutOfRangeError,
 };
 pub use hashsum::HashSum;
+// Verification hook: expose the rolling hashes to the model checking harness.
+#[cfg(oll3_bita_verif)]
+pub use rolling_hash::{BuzHash, RollSum, RollingHash};
